@@ -261,6 +261,38 @@ pub fn gen(rng: &mut ChaCha20Rng, n: usize, thorough: bool) -> Vec<Case> {
         };
         push(&mut out, format!("C06 s {}", s), &[tag, if blinded_hrp { "blech-hrp" } else { "bech-hrp" }], true);
     }
+    // padding, systematically: for every number k of padding bits (0..4; k is determined by the byte count mod 5), unblinded and blinded,
+    // EVERY non-zero pattern of the k padding bits in the last symbol, with the required checksum recomputed over the altered symbols (so only
+    // validate_padding can reject), and the all-zero pattern as the accepted control; program lengths cover every residue mod 5 twice for
+    // versions >= 1, plus the version-0 lengths
+    for blinded in [false, true] {
+        let key_len = if blinded { 33usize } else { 0 };
+        let mut shapes: Vec<(u8, usize)> = Vec::new();
+        for r in 0..5usize {
+            let ls: Vec<usize> = (2..=40usize).filter(|l| (key_len + l) % 5 == r).collect();
+            let a = ls[rng.gen_range(0..ls.len())];
+            let mut b = ls[rng.gen_range(0..ls.len())]; if b == a { b = ls[(ls.iter().position(|&x| x == a).unwrap() + 1) % ls.len()]; }
+            shapes.push((rng.gen_range(1..=16u8), a)); shapes.push((rng.gen_range(1..=16u8), b));
+        }
+        shapes.push((0, 20)); shapes.push((0, 32));
+        for (ver, plen) in shapes {
+            let net = rng.gen_range(0..3usize);
+            let hrp = if blinded { NETS[net].1.blech_hrp.to_string() } else { NETS[net].1.bech_hrp.to_string() };
+            let mut data = Vec::new();
+            if blinded { data.extend_from_slice(&rand_blinder(rng).serialize()); }
+            data.extend_from_slice(&rbytes(rng, plen));
+            let fes: Vec<u8> = data.iter().copied().bytes_to_fes().map(|f| f.to_u8()).collect();
+            let k = fes.len() * 5 - data.len() * 8;     // padding bits in the last symbol
+            let good = required_ck(ver, blinded);
+            for pat in 0u8..(1 << k) {
+                let mut f = fes.clone();
+                *f.last_mut().unwrap() |= pat;
+                let t = encode_fes(&hrp, Some(ver), &f, good);
+                let ptag = format!("pad{}", k);
+                push(&mut out, format!("C06 s {}", t), &[if pat == 0 { "enc-padding-zero" } else { "enc-padding-pattern" }, &ptag, if blinded { "blinded" } else { "unblinded" }], true);
+            }
+        }
+    }
     // base58 near misses
     for i in 0..m {
         let net = rng.gen_range(0..3usize);
